@@ -841,10 +841,10 @@ std::vector<Section> AllSections()
     std::vector<Section> v;
     v.push_back(PrevectorSection<4, uint8_t>::Make("prevector<4,uint8_t>", 4, 5));
     v.push_back(PrevectorSection<8, int>::Make("prevector<8,int>", 4, 5));
-    v.push_back(BitdequeSection::Make(4, 5));
     v.push_back(VecDequeSection<int>::Make("VecDeque<int>", 6, 7));
     v.push_back(VecDequeSection<Tracked>::Make("VecDeque<Tracked>", 6, 7));
     v.push_back(PoolSection::Make(5, 7));
+    v.push_back(BitdequeSection::Make(4, 5)); // the most expensive section per state (all iterator pairs): last
     return v;
 }
 
